@@ -5,6 +5,7 @@ Model: Model.Wire (`replyStruct`, `replyParameters`, `runActs`, `callOne`,
 `serve`).  Quantifiers: every service, every request, every script.
 -/
 import VarlinkVerif.Lemmas.Wire
+import VarlinkVerif.Lemmas.WireExtracted
 
 namespace VV
 
@@ -117,5 +118,22 @@ example :
     isOneway req = true ∧
       (callOne { serviceDesc := "" } { vendor := "", product := "", version := "", url := "", ifaces := [] } req).out = [] := by
   decide
+
+/-- Tie by extraction (DESIGN §4.2): the reply gate all theorems of this file are about is the one
+    `tools/extract.d/wire.py` reads out of `reply_struct`, `reply_parameters` and `is_oneway` in
+    /repo/varlink/src/lib.rs on every run (`Model/ExtractedWire.lean` is regenerated before the
+    build).  For every request, call state, reply and parameter value. -/
+theorem C04_gate_is_source (req : Request) (st : CallSt) (r : Reply) (p : Json) :
+    replyStruct req st r = replyStructE req st r ∧
+    replyParameters req st p = replyParametersE req st p ∧
+    isOneway req = ExtractedWire.isOnewayE req.more req.oneway req.upgrade :=
+  ⟨replyStruct_is_source req st r, replyParameters_is_source req st p, isOneway_is_source req⟩
+
+/-- over the extracted gate alone: a oneway call is never in the `write` state, whatever the other
+    flags — the statement of C04 about the source's own expression -/
+theorem C04_source_gate_never_writes_oneway (continues wantsMore : Bool) :
+    ExtractedWire.gate continues wantsMore true ≠ .write ∧
+    ExtractedWire.paramsSilent continues wantsMore true = true := by
+  cases continues <;> cases wantsMore <;> decide
 
 end VV
